@@ -467,10 +467,11 @@ where
       if chunk.any (· == 10) then (.err .transferEncoding true, evs)
       else (.needs { p with tail := chunk }, evs)
     | some pos =>
-      let line := chunk.take pos
+      let raw := chunk.take pos
       let chunk := chunk.drop (pos + sepLen cfg.lax)
-      let line := if cfg.lax then rstrip (· == 13) line else line
-      if line.length > cfg.maxField then (.err .lineTooLong false, evs) else
+      let line := if cfg.lax then rstrip (· == 13) raw else raw
+      let rawLen := if cfg.lax then raw.length - (if raw.getLast? == some 13 then 1 else 0) else raw.length
+      if rawLen > cfg.maxField then (.err .lineTooLong false, evs) else
       let tl := p.trailerLines ++ [line]
       if tl.length > p.maxTrailers then (.err .badHttpMessage false, evs) else
       if line.isEmpty then
@@ -485,8 +486,7 @@ def chunkTailTooLong (cfg : Cfg) (p : PState) : Bool :=
   if p.tail.isEmpty || p.cstate == .chunk then false else
   let maxLen := if p.cstate == .trailers then cfg.maxField else cfg.maxLine
   let tl :=
-    if !cfg.lax then p.tail.length - (if p.tail.getLast? == some 13 then 1 else 0)
-    else if p.cstate == .trailers then (rstrip (· == 13) p.tail).length
+    if !cfg.lax || p.cstate == .trailers then p.tail.length - (if p.tail.getLast? == some 13 then 1 else 0)
     else p.tail.length
   tl > maxLen
 
@@ -578,9 +578,13 @@ def onHeaderBlock (cfg : Cfg) (urlOk : Bool → Bytes → Bool) (st : St) (lines
       else .ok (st, [.msg msg false], msg.shouldClose)
 
 /-- length of a buffered partial line as the early limit check measures it -/
-def tailLen (cfg : Cfg) (tail : Bytes) : Nat :=
-  if cfg.lax then (rstrip (· == 13) tail).length
-  else tail.length - (if tail.getLast? == some 13 then 1 else 0)
+def tailLen (_cfg : Cfg) (tail : Bytes) : Nat :=
+  tail.length - (if tail.getLast? == some 13 then 1 else 0)
+
+/-- length of a completed line as the limit check measures it: in lax mode (LF terminator)
+the raw line minus at most one trailing CR; in strict mode the line itself -/
+def lineLen (cfg : Cfg) (raw : Bytes) : Nat :=
+  if cfg.lax then raw.length - (if raw.getLast? == some 13 then 1 else 0) else raw.length
 
 /-- the `while` loop of `feed_data` over `data` (already `tail + data`).  `fuel` bounds the
 iterations: each one consumes at least one byte or stops. -/
@@ -598,10 +602,10 @@ def feedLoop (cfg : Cfg) (urlOk : Bool → Bytes → Bool) :
           feedLoop cfg urlOk fuel st (data.drop (sepLen cfg.lax)) evs
         else if st.shouldClose then { st := { st with failed := true }, evs, rest := [], err := some .badHttpMessage }
         else
-          let line := data.take pos
-          let line := if cfg.lax then rstrip (· == 13) line else line
+          let raw := data.take pos
+          let line := if cfg.lax then rstrip (· == 13) raw else raw
           let maxLen := if st.lines.isEmpty then cfg.maxLine else cfg.maxField
-          if line.length > maxLen then { st := { st with failed := true }, evs, rest := [], err := some .lineTooLong } else
+          if lineLen cfg raw > maxLen then { st := { st with failed := true }, evs, rest := [], err := some .lineTooLong } else
           let lines := st.lines ++ [line]
           if lines.length > cfg.maxHeaders then { st := { st with failed := true }, evs, rest := [], err := some .badHttpMessage } else
           let data := data.drop (pos + sepLen cfg.lax)
